@@ -14,7 +14,8 @@ ANCHORS = ("ladim/ROMS.py", "ladim/timekeeper.py")
 FRACS = (0.0, 0.25, 0.5, 1.0)
 RULE = ("seeded frame/file layouts (spacing 1..12 steps incl. exactly dt, irregular, 1..6 files incl. one frame per "
         "file, start between frames, frames before start and after stop, forward and reversed, with/without scalar "
-        "fields) under the real model; at every step the public forcing.velocity(X, Y, Z, fractional_step=f), "
+        "fields) under the real model; the thorough tier additionally walks the complete table of small layouts (2..5 "
+        "frames, spacings in {1,2,3}, <= 3 files, every start offset, both directions: 8964 layouts); at every step the public forcing.velocity(X, Y, Z, fractional_step=f), "
         "f in {0, .25, .5, 1}, and forcing.variables are compared with linear time interpolation of the ground-truth "
         "node values. Non-trivial: at least one frame hand-over happened while a particle was alive. Distinct: "
         "(direction, frame steps relative to start, file partition, scalar on/off, run length)")
@@ -38,9 +39,70 @@ PROFILE = gen.profile(
 )
 
 
+def _compositions(n: int, maxparts: int):
+    if maxparts == 1 or n == 1:
+        yield [n]
+        return
+    yield [n]
+    for first in range(1, n):
+        for rest in _compositions(n - first, maxparts - 1):
+            yield [first, *rest]
+
+
+def _small_layouts():
+    """every layout with 2..5 frames, spacings in {1,2,3}, <= 3 files, every start offset inside the
+    first interval, run ending at or one step before the last frame, both directions"""
+    import itertools
+
+    out = []
+    for nf in range(2, 6):
+        for sp in itertools.product((1, 2, 3), repeat=nf - 1):
+            for split in _compositions(nf, 3):
+                for a in range(sp[0]):
+                    last = sum(sp) - a
+                    for e in (0, 1):
+                        n = last - e
+                        if n < 1:
+                            continue
+                        for rev in (False, True):
+                            out.append((sp, tuple(split), a, n, rev))
+    return out
+
+
+SMALL = _small_layouts()
+EXHAUSTIVE = {"thorough": False}     # the SMALL table is walked completely in the thorough tier (probe small_layouts)
+
+
 def generate(seed: int, tier: str, idx: int) -> dict:
     s = stream(seed, "c03")
     prof = dict(PROFILE)
+    if tier == "thorough" and idx % 2 == 0 and idx // 2 < len(SMALL):
+        sp, split, a, n, rev = SMALL[idx // 2]
+        prof.update(nsteps=(n, n), p_reversed=1.0 if rev else 0.0, p_stop_extra=0.0, p_continuous=0.0,
+                    p_rows_outside=0.0)
+        sc = gen.gen_scenario(seed, prof)
+        offs = [-a]
+        for d_ in sp:
+            offs.append(offs[-1] + d_)
+        if rev:
+            offs = [-o for o in reversed(offs)]
+            split = tuple(reversed(split))
+        sc["frames"] = {"offsets": offs, "split": list(split)}
+        if s.chance(0.3):
+            sc["frames"]["storage"] = "i2"
+            sc["frames"]["scale"] = [1.0e-4, 2.5e-4]
+        for c in ("u", "v"):
+            amps, prev = [], None
+            for _ in offs:
+                for _try in range(10):
+                    v = round(s.uniform(0.35, 1.0) * s.pick([1, 1, 1, -1]), 3)
+                    if prev is None or abs(v - prev) > 0.08:
+                        break
+                amps.append(v)
+                prev = v
+            sc["flow"]["amp_" + c] = amps
+        sc["small_layout"] = True
+        return sc
     if s.chance(0.3):
         prof["nsteps"] = (1, 8)     # many short runs over small layouts
         prof["spacing"] = (1, 3)
@@ -92,13 +154,15 @@ def execute(sc) -> Result:
         steps = truth.frame_steps(sc)
         res.history_key = "|".join(map(str, (
             truth.sgn(sc), sorted(steps), sc["frames"].get("split"), bool(truth.scalar_names(sc)),
-            sc["time"]["nsteps"]))) + "|" + abstract_history(run)
+            sc["time"]["nsteps"]))) + "|" + abstract_history(run, sc)
         v, foreign = crash_violation(ID, run, ANCHORS)
         if v is not None:
             res.add(v)
         if foreign:
             res.aborted_foreign += 1
         layout_probes(res, sc)
+        if sc.get("small_layout"):
+            res.probes["small_layouts"] += 1
         tol = 1e-4 * ref.scale() + 1e-12
         judged = 0
         handover_alive = False
